@@ -22,7 +22,9 @@ Record Defects := mkDefects {
   d_avail_voted : bool;      (* freeze/activate of an elector who already voted changes AvailableElectorateNum *)
   d_special_updavail : bool; (* UpdateAvailableElectorateNum concludes a special proposal without super-admin vote *)
   d_unlock_closed : bool;    (* unlockLowPriorityProposal re-opens / re-closes an already ended proposal *)
-  d_logout_inc : bool        (* a rejected logout increments AvailableElectorateNum although the logout request never decremented it *)
+  d_logout_inc : bool        (* unrepaired recount rules: per event and result (freeze/activate approved, logout rejected) and the
+                                logout request tests availability AFTER the status change, so it never decrements;
+                                repaired: recount whenever the administrator's availability really changes *)
 }.
 Definition cfg_fixed : Defects := mkDefects false false false false false false.
 Definition cfg_faithful : Defects := mkDefects true true true true true true.
@@ -264,22 +266,26 @@ Section Gov.
             let st1 := set_role st obj (s', w) in
             if seqb ev gov_ev_register then
               if seqb next gov_ev_approve then Ok (update_strategy_info st1) else Ok st1
-            else if seqb ev gov_ev_freeze || seqb ev gov_ev_activate then
-              if seqb next gov_ev_approve then
-                match cascade st1 obj (seqb ev gov_ev_activate) with
-                | Ok s2 => Ok (update_strategy_info s2)
-                | Fail c => Fail c
-                end
-              else Ok st1
-            else if seqb ev gov_ev_logout then
-              if seqb next gov_ev_reject && is_avail_status s' then
-                if d_logout_inc cfg then
-                  match cascade st1 obj true with
+            else if seqb ev gov_ev_freeze || seqb ev gov_ev_activate || seqb ev gov_ev_logout then
+              if d_logout_inc cfg then
+                if seqb ev gov_ev_logout then
+                  if seqb next gov_ev_reject && is_avail_status s' then
+                    match cascade st1 obj true with
+                    | Ok s2 => Ok (update_strategy_info s2)
+                    | Fail c => Fail c
+                    end
+                  else Ok st1
+                else if seqb next gov_ev_approve then
+                  match cascade st1 obj (seqb ev gov_ev_activate) with
                   | Ok s2 => Ok (update_strategy_info s2)
                   | Fail c => Fail c
                   end
-                else Ok (update_strategy_info st1)
-              else Ok st1
+                else Ok st1
+              else if Bool.eqb (is_avail_status s) (is_avail_status s') then Ok st1
+              else match cascade st1 obj (is_avail_status s') with
+                   | Ok s2 => Ok (update_strategy_info s2)
+                   | Fail c => Fail c
+                   end
             else Ok st1
           end
         end
@@ -396,12 +402,13 @@ Section Gov.
       else conclude cfg (fuel_of st) st i ST_REJECTED RS_WITHDRAWN
     end.
 
-  (** ZeroPermission(id): no caller check (managers call it right after SubmitProposal, accounts
-      may call it as well).  Repaired: an approved / rejected proposal is left alone.
-      Unrepaired ([d_zero_open]): no status check, an ended zero-permission proposal is concluded
-      and Managed again. *)
-  Definition zero_perm cfg st (i : nat) : res state :=
-    match get_prop st i with
+  (** ZeroPermission(id).  [internal = true]: cross-invoked by a manager contract right after
+      SubmitProposal; [internal = false]: called by an account.  Repaired: reserved to the manager
+      contracts, and an approved / rejected proposal is left alone.  Unrepaired ([d_zero_open]):
+      neither check, an ended zero-permission proposal is concluded and Managed again by anybody. *)
+  Definition zero_perm cfg st (internal : bool) (i : nat) : res state :=
+    if negb internal && negb (d_zero_open cfg) then Fail 1
+    else match get_prop st i with
     | None => Fail 3
     | Some p =>
       if h_zero (p_hdr p) && (d_zero_open cfg || (p_status p <? 2))
@@ -411,7 +418,7 @@ Section Gov.
 
   (** the tail of every manager flow: cross-invoke ZeroPermission, result ignored *)
   Definition zero_after cfg (st : state) (i : nat) : res state :=
-    match zero_perm cfg st i with
+    match zero_perm cfg st true i with
     | Ok s => Ok s
     | Fail _ => Fail 99      (* partial effects of a failed nested call are outside the model *)
     end.
@@ -434,7 +441,7 @@ Section Gov.
           | None => Fail 9
           | Some s' =>
             let st2 := set_role st1 x (s', w) in
-            let r3 := if seqb ev gov_ev_logout && is_avail_status s'
+            let r3 := if seqb ev gov_ev_logout && is_avail_status (if d_logout_inc cfg then s' else s)
                       then match cascade cfg (conclude cfg (fuel_of st)) st2 x false with
                            | Ok s3 => Ok (update_strategy_info s3)
                            | Fail k => Fail k
@@ -574,7 +581,7 @@ Section Gov.
     | OLogoutNode c x => logout_node cfg st c x
     | OVote c i b => vote cfg st c i b
     | OWithdraw c i => withdraw cfg st c i
-    | OZero c i => zero_perm cfg st i
+    | OZero c i => zero_perm cfg st false i
     | OUpdStrategy c m z e => upd_strategy cfg st c m z e
     | OGuarded _ => Fail 1
     | OBad => Fail 9
@@ -648,6 +655,13 @@ Section Gov.
     N.of_nat (List.length (filter (fun e : N * N => is_avail_admin st (fst e) && negb (voted p (fst e))) (h_elect (p_hdr p)))).
   Definition avail_ok st (p : proposal) : bool :=
     N.of_nat (List.length (p_ballots p)) + avail_nonvoters st p <=? p_avail p.
+
+  (** for a proposal rejected in this very step: electors available before AND after the step (the
+      conclusion itself may make the governed admin available again, e.g. a rejected logout request) *)
+  Definition avail_ok_both (a b : state) (p : proposal) : bool :=
+    N.of_nat (List.length (p_ballots p)) +
+    N.of_nat (List.length (filter (fun e : N * N => is_avail_admin a (fst e) && is_avail_admin b (fst e) && negb (voted p (fst e)))
+                                  (h_elect (p_hdr p)))) <=? p_avail p.
 
   Definition hdr_eqb (a b : phdr) : bool :=
     (h_from a =? h_from b) && (h_seq a =? h_seq b) && (h_mod a =? h_mod b) && seqb (h_ev a) (h_ev b) &&
@@ -769,7 +783,7 @@ Section Gov.
   Definition cl_avail (a b : state) : bool :=
     forallb (fun q => negb (is_open q) || avail_ok b q) (s_props b) &&
     forallb (fun pq : proposal * proposal =>
-               negb (is_open (fst pq) && (p_status (snd pq) =? ST_REJECTED) && by_tally (snd pq)) || avail_ok b (snd pq)) (olds a b).
+               negb (is_open (fst pq) && (p_status (snd pq) =? ST_REJECTED) && by_tally (snd pq)) || avail_ok_both a b (snd pq)) (olds a b).
 
   Definition cl_bound (a b : state) : bool :=
     forallb (fun pq : proposal * proposal =>
